@@ -381,6 +381,7 @@ class Ctx:
         self.model = None
         self.queries = 0; self.solver_s = 0.0; self.unknowns = 0
         self.notes = {}
+        self.fork_log = [] if os.environ.get('VERIF_FORKLOG') else None
         self.fresh_n = 0
     # -- symbolic inputs
     def sym_int(self, name, lo, hi):
@@ -473,6 +474,7 @@ class Ctx:
             if t and f:
                 d = True if keep is None else keep
                 self.pending.append(self.trace + [not d])
+                if self.fork_log is not None: self.fork_log.append(str(cond)[:120])
                 if keep is None: self.model = None
             elif t: d = True
             elif f: d = False
